@@ -12,14 +12,19 @@ META = {
              "holds when equality on the scan route is the canonical one, special paths are never hinted and only EQUAL/IN are "
              "hinted; refuted by closed witnesses otherwise), routes_agree (with paging after the whole predicate on both routes, "
              "labels re-attached and the ordering attribute checked, the two routes return the same items for every store and "
-             "query), closed witnesses for each currently false fact, and routes_agree_partial for the fragment that avoids them; "
+             "query), leg_agree_same_kind / current_same_kind (hint and leg agree on every record whose hinted field is not a number or a "
+             "number of the compare value's kind, so on such stores the routes agree on the current tree), bucket_tracks_store / bucketRouteS_run (the stateful buckets serve what the specification says, after any "
+             "history of saves, deletes, reloads and build steps), closed witnesses for each currently false fact and for each "
+             "mutation kind that might not reach a bucket, and routes_agree_partial for the fragment that avoids them; "
              "classify_sound ties the decision to facts extracted from bucket_planner.go, bucket_exec.go, gateway.go, "
              "filter_native.go, filter.go and bucket.go."),
     "note": ("Trusted: Lean kernel; extract/c08.go; harness/c08.go (msgpack bodies are decoded by the real library and compared with "
              "the text the model reads). The ordered index read of the scan route is modelled by C07's Spec; for the four index types C08 uses "
              "(key, creation, update, expiration time) that is Hv.C07.holds_current_nonvalue on the current tree, and the run moves "
-             "timestamps by updates between queries so a stale index would show as a route disagreement. Assumed: the bucket's sequential "
-             "maintenance is its specification (exercised by the run); floats are k/4 with |k| small, integers below 2^53 (no NaN/Inf, "
+             "timestamps by updates between queries so a stale index would show as a route disagreement. The field bucket is modelled as "
+             "state (Hv/Query/Bucket.lean: lazy build over a snapshot, pending buffer, drain, OnInsert/OnUpdate/OnDelete) and "
+             "bucket_tracks_store proves it files exactly the live records under the canonical key of their current body after "
+             "every history, given the extracted notification facts; floats are k/4 with |k| small, integers below 2^53 (no NaN/Inf, "
              "no lossy int-float conversion); filters are body-field comparison / IN / emptiness legs; forcing the scan route by "
              "wrapping the filter as the single sub-group of an OR group (planOr bypasses on sub-groups; verified by extract)."),
     "design_ref": "§8 C08",
@@ -33,6 +38,13 @@ FINDINGS = {
     "C08-bucket-route-ignores-index-attribute": "ordered by a time index, the bucket route also returns records that do not carry that timestamp; the scan route (the index) does not contain them",
 }
 
+FINDINGS.update({
+    "C08-bucket-misses-insert": "SaveFunction does not tell the built field buckets about a new key: the accelerated route misses the record",
+    "C08-bucket-misses-update": "SaveFunction does not tell the built field buckets about a modified treasure: the accelerated route serves it under its old field value",
+    "C08-bucket-misses-delete": "deleteHandler does not tell the built field buckets: the accelerated route still serves the deleted treasure",
+    "C08-bucket-build-drops-pending": "mutations that arrive while a bucket build is in flight are not replayed by DrainPending",
+    "C08-bucket-served-before-drain": "a field bucket is EqualityInitialized as soon as BuildEquality returns, before its builder drained the pending buffer: a reader that comes in that window is served without the saves/deletes that completed meanwhile",
+})
 FINDINGS["C08-window-on-key-index"] = ("with the key index and a time window the scan route ignores the window (findInKeyBeacon) while "
                                        "applyTimeRange filters the candidates by timestamp 0: FromTime > 0 empties the accelerated route")
 
@@ -43,15 +55,23 @@ class Shadow:
     def __init__(self):
         self.ts = {}
         self.texts = {}
+        self.queried = False            # a query ran in this case (a bucket may be built)
+        self.mutated_after_query = False
+        self.held = False               # a first query is held inside GetOrBuildBucket (op bq … release)
+        self.mutated_while_held = False
 
     def put(self, k, c, u, e, text):
         old = self.ts.get(k, (0, 0, 0))
         self.ts[k] = (c or old[0], u or old[1], e or old[2])
         self.texts[k] = text
+        self.mutated_after_query = self.mutated_after_query or self.queried
+        self.mutated_while_held = self.mutated_while_held or self.held
 
     def delete(self, k):
         self.ts.pop(k, None)
         self.texts.pop(k, None)
+        self.mutated_after_query = self.mutated_after_query or self.queried
+        self.mutated_while_held = self.mutated_while_held or self.held
 
     def attr(self, idx, key):
         if idx == "key":
@@ -87,12 +107,115 @@ def split_reply(line):
     return (m.group(1), m.group(2)) if m else None
 
 
-def signature(fid, f, sh):
+def parse_text(t):
+    """the body text of a `body` op line → nested (kind, payload): kinds n T F i u f t s a m"""
+    pos = [0]
+
+    def val():
+        c = t[pos[0]]
+        if c in "nTF":
+            pos[0] += 1
+            return (c, None)
+        if c in "iutf":
+            j = pos[0] + 1
+            while j < len(t) and t[j] not in ",]}":
+                j += 1
+            out = (c, t[pos[0] + 1:j])
+            pos[0] = j
+            return out
+        if c == "'":
+            j = t.index("'", pos[0] + 1)
+            out = ("s", t[pos[0] + 1:j])
+            pos[0] = j + 1
+            return out
+        if c == "[":
+            pos[0] += 1
+            items = []
+            while t[pos[0]] != "]":
+                if t[pos[0]] == ",":
+                    pos[0] += 1
+                    continue
+                items.append(val())
+            pos[0] += 1
+            return ("a", items)
+        if c == "{":
+            pos[0] += 1
+            fields = {}
+            while t[pos[0]] != "}":
+                if t[pos[0]] == ",":
+                    pos[0] += 1
+                    continue
+                j = t.index(":", pos[0])
+                k = t[pos[0]:j]
+                pos[0] = j + 1
+                v = val()
+                fields.setdefault(k, v)     # the first of two equal keys is the one both extractors find
+            pos[0] += 1
+            return ("m", fields)
+        raise ValueError(t[pos[0]:])
+
+    return val()
+
+
+NUM_CLASS = {"i": 0, "t": 0, "u": 1, "f": 2}       # signed / unsigned / float; everything else: not a number
+CV_CLASS = {"i8": 0, "i16": 0, "i32": 0, "i64": 0, "u8": 1, "u16": 1, "u32": 1, "u64": 1, "f32": 2, "f64": 2}
+
+
+def eq_leaves(filt):
+    """the equality-type legs (EQUAL / …_IN) with a plain path, anywhere in the filter text: (path, op, cv type)"""
+    out = []
+    for tok in re.split(r"[(),&|]", filt):
+        p = tok.split("~")
+        if len(p) == 4 and p[1] in ("eq", "sin", "i32in", "i64in") and "[*]" not in p[0] and "#len" not in p[0] and p[0]:
+            out.append((p[0].split("."), p[1], p[2].split(":", 1)[0]))
+    return out
+
+
+def cross_kind(text, leaves):
+    """does the record's body hold, at the path of one of the legs, a NUMBER of another kind than the
+    leg compares with?  (Hv.Query.sameKind, negated — the only records on which hint and leg can differ)"""
+    if text is None:
+        return False
+    try:
+        body = parse_text(text)
+    except (ValueError, IndexError):
+        return True                      # cannot tell: do not reject the signature on a parser gap
+    for path, op, cvt in leaves:
+        cur = body
+        for seg in path:
+            cur = cur[1].get(seg, ("n", None)) if cur[0] == "m" else ("n", None)
+        vc = NUM_CLASS.get(cur[0], 3)
+        if vc == 3 or op == "sin":
+            continue
+        if op in ("i32in", "i64in"):
+            if vc != 0:
+                return True
+        elif CV_CLASS.get(cvt, 3) != 3 and CV_CLASS[cvt] != vc:
+            return True
+    return False
+
+
+def signature(fid, f, sh, ib=None, is_=None):
     """coarse decidable predicate on the failing input, independent of the model"""
     idx, frm, lim, filt = f[1], int(f[3]), int(f[4]), f[8]
     if fid == "C08-scan-equality-not-canonical":
-        # a float / time value in a body, a special float, or an integer beyond float64's exact range
-        return any(re.search(r"[:,\[]f[-+N\d]|[:,\[]t\d|[iu]-?\d{16,}", t or "") for t in sh.texts.values())
+        # Symptom on the two replies: every record that one route returns and the other does not (or
+        # that they label differently) holds, at the path of an equality-type leg of this filter, a
+        # number of another kind than the leg compares with.  On same-kind operands the routes agree
+        # (Hv.C08.current_same_kind), so nothing else can hide behind this finding.
+        leaves = eq_leaves(filt)
+        kb = {x.split("[", 1)[0]: x for x in (ib.split(",") if ib else [])}
+        ks = {x.split("[", 1)[0]: x for x in (is_.split(",") if is_ else [])}
+        differing = [k for k in set(kb) | set(ks) if kb.get(k) != ks.get(k)]
+        if frm or lim or int(f[7]):
+            # a cut (offset / limit / MaxResults) shifts which records fall inside it: one cross-kind record
+            # earlier in the order moves same-kind ones in or out — then some live record must be cross-kind
+            return bool(leaves) and bool(differing) and any(cross_kind(t, leaves) for t in sh.texts.values())
+        return bool(leaves) and bool(differing) and all(cross_kind(sh.texts.get(k), leaves) for k in differing)
+    if fid == "C08-bucket-served-before-drain":
+        return sh.held and sh.mutated_while_held   # only a reader inside the window, after a mutation inside the window
+    if fid.startswith("C08-bucket-misses-") or fid == "C08-bucket-build-drops-pending":
+        return sh.mutated_after_query   # a bucket can only be stale about something that changed after it was built
     if fid == "C08-special-path-hinted":
         return "[*]" in filt or "#len" in filt
     if fid == "C08-paging-before-residual":
@@ -125,11 +248,20 @@ def judge(c):
             sh.put(f[1], int(f[2]), int(f[3]), int(f[4]), None)
         elif f[0] == "del" and len(f) == 2:
             sh.delete(f[1])
+        elif f[0] == "bq" and impl == "held":
+            sh.held, sh.mutated_while_held, sh.queried = True, False, True
+            stats["held_builds"] = stats.get("held_builds", 0) + 1
+        elif f[0] == "release":
+            sh.held = False
         if f[0] != "q" or len(f) != 9:
             if impl != model:
                 mism.append(i)
             continue
         stats["queries"] += 1
+        if sh.held:
+            stats["queries_while_build_held"] = stats.get("queries_while_build_held", 0) + 1
+        if sh.mutated_after_query:
+            stats["after_mutation_of_built_bucket"] = stats.get("after_mutation_of_built_bucket", 0) + 1
         stats["by_index"][f[1] + "/" + f[2]] = stats["by_index"].get(f[1] + "/" + f[2], 0) + 1
         ri, rm = split_reply(impl), split_reply(model)
         if ri is None or rm is None:
@@ -156,7 +288,7 @@ def judge(c):
             continue
         if disagree:
             stats["impl_routes_disagree"] += 1
-            sigs = [x for x in flags if x in FINDINGS and signature(x, f, sh)]
+            sigs = [x for x in flags if x in FINDINGS and signature(x, f, sh, ib, is_)]
             if ok and flags and not sigs and all(x in FINDINGS for x in flags):
                 unexplained.append((i, "routes disagree (b=%s s=%s); the model blames %s but no signature predicate holds" % (ib, is_, flags)))
             if not flags and ok:
@@ -164,6 +296,7 @@ def judge(c):
         elif flags and ok:
             unexplained.append((i, "model flags %s but the implementation's routes agree" % flags))
             c.flags[i] = []
+        sh.queried = True
     c.mismatch = mism
     return stats, unexplained
 
@@ -221,7 +354,7 @@ def run(ctx):
         rep.update({"correspondence": "C08", "oracle": why})
         ctx.violation("implementation violates the property (route agreement, not explained by any listed finding): " + why, rep, tag="oracle")
     if ctx.thorough:
-        ok, out = K.leanchecker(ctx, ["Hv.Props.C08", "Hv.Query.Lemmas", "Hv.Query.Routes", "Hv.Query.Filter", "Hv.Query.Value"])
+        ok, out = K.leanchecker(ctx, ["Hv.Props.C08", "Hv.Query.Lemmas", "Hv.Query.Bucket", "Hv.Query.SameKind", "Hv.Query.Routes", "Hv.Query.Filter", "Hv.Query.Value"])
         ctx.cov["leanchecker"] = "ok" if ok else out[-500:]
         if not ok:
             ctx.violation("leanchecker rejected the compiled proofs", {"log": out[-2000:]}, tag="leanchecker", found_input=False)
@@ -230,14 +363,19 @@ def run(ctx):
         samples.append({"ops": [c.ops[i][:200] for i in cs][:10], "impl": [c.impl[i][:120] for i in cs if i < len(c.impl)][:10]})
     return K.finish(
         ctx, "proof",
-        rule=("cases = 6 corpus cases (the proved witnesses + a sound-fragment case with mutation after the bucket was built) + random "
+        rule=("cases = 8 corpus cases (the proved witnesses, a sound-fragment case with mutation after the bucket was built, two with a "
+              "first query held inside GetOrBuildBucket after its snapshot / after BuildEquality while saves, a delete and a "
+              "second reader arrive) + random "
               "cases of 5..30 ops (..54 thorough) over 2..8 keys, every third on a persistent swamp that is closed and reloaded "
               "between queries: msgpack bodies (nil/bool/int/uint/float/string/time scalars in every "
               "wire width, boundary values MaxInt64/MinInt64/2^53+-1/MaxUint64/2^63/-0.0/NaN/+-Inf, nested map, scalar array, array of maps; fields sometimes missing), records without a body, deletes, and "
               "queries (key/creation/update/expiration order x asc/desc x From 0..2 x Limit 0..3 x window x MaxResults) whose filter "
               "trees (AND/OR, depth <= 3, EQUAL/IN/range/emptiness legs, plain, [*] and #len paths, labels) are seeded from a live "
               "body; every query runs through the accelerated route and, wrapped as the only sub-group of an OR group, through the "
-              "full-scan route. Non-trivial = case with >= 3 ops; distinct = distinct op texts."),
+              "full-scan route; in every second non-paging case a first query is held at hook bucket.snapshot / bucket.built for 1..4 ops "
+              "(saves, queries) and then released. A route disagreement is accepted as the recorded scan-equality finding only if "
+              "every differing record holds, at the path of an equality-type leg, a number of another kind than the leg compares "
+              "with. Non-trivial = case with >= 3 ops; distinct = distinct op texts."),
         samples=samples,
         evaluations=len(c.ops),
         distinct_nontrivial=K.distinct_cases(c),
